@@ -169,4 +169,66 @@ def standin_protocols(tier, seed):
                       "(permuted, gapped, grid, named) x random axes",
                 cases=cases, distinct=len(distinct), failures=len(fails), exhaustive=False, _fails=fails[:3])
 standin_protocols.prop = "C04"
-STANDINS = [standin_protocols]
+
+
+def standin_predicates_vs_values(tier, seed):
+    """the yes/no protocol answers of an operation, and of every wrapper around it, agree with what the value-returning protocols
+    return: has_unitary <-> unitary, has_kraus <-> kraus, has_mixture <-> mixture, is_measurement <-> measurement keys; and a
+    wrapper (tags, virtual tag, nested tags, qubit remapping, a moment, a circuit operation) answers like the wrapped operation"""
+    import cirq
+
+    q = cirq.LineQubit.range(3)
+    u = cirq.testing.random_unitary(2, random_state=3)
+    base = [cirq.X(q[0]), cirq.CZ(q[0], q[1]) ** 0.3, cirq.bit_flip(0.1)(q[0]), cirq.depolarize(0.2)(q[0]), cirq.amplitude_damp(0.3)(q[0]), cirq.generalized_amplitude_damp(0.2, 0.3)(q[0]),
+            cirq.phase_damp(0.4)(q[0]), cirq.ResetChannel()(q[0]), cirq.KrausChannel([np.sqrt(0.5) * u, np.sqrt(0.5) * np.eye(2)])(q[0]), cirq.MixedUnitaryChannel([(0.5, u), (0.5, np.eye(2))])(q[0]),
+            cirq.X.with_probability(0.3)(q[0]), cirq.measure(q[0], q[1], key="m"), cirq.measure_single_paulistring(cirq.X(q[0]) * cirq.Z(q[1]), key="p"), cirq.X(q[0]).with_classical_controls("k"),
+            cirq.depolarize(0.1, n_qubits=2)(q[0], q[1]), cirq.I(q[0]), cirq.global_phase_operation(1j), cirq.WaitGate(cirq.Duration(nanos=1))(q[0]), cirq.X(q[0]) ** cirq.Symbol("t") if hasattr(cirq, "Symbol") else cirq.X(q[0])]
+    wrappers = {"bare": lambda o: o, "with_tags": lambda o: o.with_tags("t"), "virtual tag": lambda o: o.with_tags(cirq.VirtualTag()), "nested tags": lambda o: cirq.TaggedOperation(o.with_tags("a"), "b"),
+                "empty tag wrapper": lambda o: cirq.TaggedOperation(o), "remapped qubits": lambda o: o.transform_qubits({q[0]: q[2], q[2]: q[0]}),
+                "moment": lambda o: cirq.Moment(o), "circuit operation": lambda o: cirq.CircuitOperation(cirq.FrozenCircuit(o))}
+    cases, fails = 0, []
+
+    def bad(what, **kw):
+        fails.append(dict(args={k: repr(v)[:300] for k, v in kw.items()}, failed=what, clause=what))
+
+    for o in base:
+        ref = None
+        for wname, w in wrappers.items():
+            try:
+                x = w(o)
+            except Exception:
+                continue
+            cases += 1
+            ans = {}
+            for pred, val in ((cirq.has_unitary, lambda v: cirq.unitary(v, None)), (cirq.has_kraus, lambda v: cirq.kraus(v, None)), (cirq.has_mixture, lambda v: cirq.mixture(v, None))):
+                try:
+                    yes, got = bool(pred(x)), val(x)
+                except Exception as ex:
+                    bad(f"{pred.__name__} / its value protocol raised {type(ex).__name__}", operation=o, wrapper=wname)
+                    continue
+                ans[pred.__name__] = yes
+                if yes != (got is not None):
+                    bad(f"{pred.__name__}() is {yes} although the value protocol returns {'a value' if got is not None else 'nothing'}", operation=o, wrapper=wname)
+            ans["is_measurement"] = cirq.is_measurement(x)
+            if ans["is_measurement"] != bool(cirq.measurement_key_names(x)):
+                bad("is_measurement() disagrees with measurement_key_names()", operation=o, wrapper=wname)
+            if wname == "bare":
+                ref = ans
+            elif ref is not None and wname != "circuit operation" and ans != ref:
+                bad(f"a wrapper answers the yes/no protocols differently from the operation it wraps: {ans} vs {ref}", operation=o, wrapper=wname)
+            if ref is not None and wname not in ("bare", "remapped qubits", "circuit operation") and ref.get("has_kraus") and cirq.kraus(o, None) is not None and cirq.kraus(x, None) is not None:
+                a, b = cirq.kraus_to_superoperator(cirq.kraus(o)), cirq.kraus_to_superoperator(cirq.kraus(x))
+                if a.shape != b.shape or not np.allclose(a, b, atol=1e-8):
+                    bad("kraus() of a wrapper describes a different map", operation=o, wrapper=wname)
+    # one witness per (kind of disagreement, wrapper, operation class): each is matched against the known findings on its own
+    seen, uniq = set(), []
+    for f in fails:
+        k = (f["failed"].split(":")[0], f["args"].get("wrapper"), f["args"].get("operation", "")[:24])
+        if k not in seen:
+            seen.add(k)
+            uniq.append(f)
+    return dict(function=F + "[has_* / is_* predicates vs value protocols, through wrappers]", case="predicates-vs-values",
+                bound="19 operations (unitary, mixture, non-mixture channels, measurements, classical control, parameterized) x 8 wrappers", cases=cases, distinct=cases,
+                failures=len(fails), exhaustive=True, _fails=uniq)
+standin_predicates_vs_values.prop = "C04"
+STANDINS = [standin_protocols, standin_predicates_vs_values]
